@@ -632,7 +632,8 @@ def expr_datas():
             "l3": J.vlist([J.vstr("p<"), J.vint(4)]), "d1": J.vdict([(J.vstr("a"), J.vint(1)), (J.vstr("b"), J.vlist([J.vint(5)]))]),
             "o1": J.vobj("o1"), "f1": J.vfn("f1", "nargs"), "f2": J.vfn("f2", "arg0", J.vint(7)),
             "f3": J.vfn("f3", "const", J.vstr("r&")), "n0": J.VNONE, "t1": J.vbool(True), "e2": J.vint(2),
-            "fl1": J.vfloat(2.5), "fl2": J.vfloat(-0.75)}
+            "fl1": J.vfloat(2.5), "fl2": J.vfloat(-0.75),
+            "dk": J.vdict([(J.vstr("items"), J.vint(7)), (J.vstr("get"), J.vstr("G<")), (J.vstr("a"), J.VNONE)])}
     d2 = dict(base, i1=J.vint(0), i2=J.vint(5), s1=J.vstr(""), l1=J.vlist([J.vint(2)]), o1=J.vobj("o2"), t1=J.vbool(False),
               fl1=J.vfloat(0.5), fl2=J.vfloat(4.0),
               d1=J.vdict([(J.vstr("c"), J.vint(0))]), m1=J.vstr("", "data", True))
@@ -773,7 +774,7 @@ class ExprGen:
                          J.Bin("//", self.gint(d - 1), C(0)))
 
 
-def expr_cases(seed, n, start_id=1, depth=3, auto=None, rich=False, numeric=False):
+def expr_cases(seed, n, start_id=1, depth=3, auto=None, rich=False, numeric=False, collide=False):
     rnd = random.Random(seed)
     g = ExprGen(rnd, rich)
     cases = []
@@ -781,7 +782,17 @@ def expr_cases(seed, n, start_id=1, depth=3, auto=None, rich=False, numeric=Fals
     for i in range(n):
         a = rnd.random() < 0.5 if auto is None else auto
         e = g.gany(rnd.randint(1, depth))
-        if numeric:
+        if collide:
+            # dict keys that collide with dict attributes: dot syntax takes the attribute, subscript the key
+            dd = rnd.choice([J.Dict([(C("items"), C(1)), (C("a"), C(2))]), J.Dict([(C("get"), C("g<")), (C("keys"), J.List([C(1)]))]),
+                             N("dk"), J.Dict([(C("values"), N("i1")), (C("items"), N("s1"))])])
+            nm = rnd.choice(["items", "keys", "values", "get", "a"])
+            e = rnd.choice([lambda: J.Test(J.Getattr(dd, nm), "callable"), lambda: J.Getitem(dd, C(nm)),
+                            lambda: J.Filter(J.Call(J.Getattr(dd, rnd.choice(["items", "keys", "values"]))), "list"),
+                            lambda: J.Call(J.Getattr(dd, "get"), [C(nm)]), lambda: J.Test(J.Getitem(dd, C(nm)), "callable"),
+                            lambda: J.Cond(J.Test(J.Getattr(dd, nm), "callable"), C("method"), J.Getattr(dd, nm)),
+                            lambda: J.Filter(J.Getattr(dd, nm), "default", [C("d")])])()
+        elif numeric:
             # float-centred: arithmetic, comparison, printing inside a container, concatenation
             dd = rnd.randint(1, depth)
             e = rnd.choice([lambda: g.gflt(dd), lambda: g.gflt(dd), lambda: J.List([g.gflt(dd - 1), g.gnum(dd - 1)]),
